@@ -790,6 +790,23 @@ func drawSnippet(t *rapid.T, name string, e genEnv) []Op {
 			ops = append(ops, Op{K: "evstart", B: b, N: 0}, Op{K: "evend", B: b, A: a, N: 0, Src: "evtok", SA: a})
 		}
 		ops = append(ops, Op{K: "totpsetup", B: b}, Op{K: "totpconfirm", B: b, A: a, Src: "totpsess"})
+	case "enrolreplay":
+		// enrol TOTP with code X, then try X again as a login code while it is still valid
+		// (an enrolment hashes ten recovery codes at the library's fixed bcrypt cost, ~0.5 s:
+		// only one world in six spends that time)
+		if !c.HasSetup("totp") || !c.Has("auth") || c.Seed%6 != 0 {
+			return nil
+		}
+		ops = append(ops, login)
+		if c.EmailAuth {
+			ops = append(ops, Op{K: "evstart", B: b, N: 0}, Op{K: "evend", B: b, A: a, N: 0, Src: "evtok", SA: a})
+		}
+		ops = append(ops, Op{K: "totpsetup", B: b}, Op{K: "totpconfirm", B: b, A: a, Src: "totpsess"})
+		b2 := rapid.IntRange(0, e.nBrows-1).Draw(t, "sbrowser2")
+		if b2 == b {
+			ops = append(ops, Op{K: "newsess", B: b})
+		}
+		ops = append(ops, Op{K: "login", B: b2, A: a, Src: "pw", SA: a}, Op{K: "totpvalidate", B: b2, A: a, Src: "totp", SA: a})
 	case "enrol-sms":
 		if !c.HasSetup("sms") || !c.Has("auth") {
 			return nil
